@@ -51,8 +51,10 @@ static inline int msvc_ctz(unsigned int x) {
  * Input: 4 bytes, Output: 32 x uint32_t
  */
 void carquet_sse_bitunpack32_1bit(const uint8_t* input, uint32_t* values) {
-    /* Load 4 bytes and expand */
-    __m128i bytes = _mm_cvtsi32_si128(*(const int32_t*)input);
+    /* Load 4 bytes and expand (memcpy: input has no alignment guarantee) */
+    int32_t packed;
+    memcpy(&packed, input, sizeof(packed));
+    __m128i bytes = _mm_cvtsi32_si128(packed);
 
     /* Shuffle to repeat each byte 8 times for masking */
     static const int8_t shuffle_mask[16] = {
@@ -114,8 +116,10 @@ void carquet_sse_bitunpack32_1bit(const uint8_t* input, uint32_t* values) {
  * Unpack 8 4-bit values using SSE.
  */
 void carquet_sse_bitunpack8_4bit(const uint8_t* input, uint32_t* values) {
-    /* Load 4 bytes containing 8 x 4-bit values */
-    __m128i bytes = _mm_cvtsi32_si128(*(const int32_t*)input);
+    /* Load 4 bytes containing 8 x 4-bit values (memcpy: input has no alignment guarantee) */
+    int32_t packed;
+    memcpy(&packed, input, sizeof(packed));
+    __m128i bytes = _mm_cvtsi32_si128(packed);
 
     /* Split into low and high nibbles */
     __m128i lo_nibbles = _mm_and_si128(bytes, _mm_set1_epi8(0x0F));
